@@ -122,44 +122,8 @@ func runC17(c *Ctx) error {
 		}
 		// ---- int-keyed map of objects, four-member botheq, botheq over slices / maps / structs
 		if i%2 == 0 {
-			var s WGS2
-			var exps []expE
-			cell := "wgs2"
-			nk := r.Range(0, 2)
-			if nk > 0 {
-				s.MI = map[int]WG{}
-			}
-			for k := 0; k < nk; k++ {
-				p := randWG(r)
-				s.MI[k+3] = p.wg()
-				exps = append(exps, groupExps(p, fmt.Sprintf("WGS2.MI[%d]", k+3))...)
-			}
-			cell += fmt.Sprintf(":mi%d", nk)
-			four := [][4]int{{0, 0, 0, 0}, {2, 2, 2, 2}, {2, 9, 2, 2}, {2, 2, 9, 2}, {2, 2, 2, 9}, {2, 9, 2, 9}, {0, 2, 0, 0}, {9, 2, 2, 2}}[r.Intn(8)]
-			s.A, s.B, s.C, s.D = four[0], four[1], four[2], four[3]
-			if !(four[0] == four[1] && four[1] == four[2] && four[2] == four[3]) {
-				exps = append(exps, expE{"G", "", `botheq:"WGS2.A", "WGS2.B", "WGS2.C", "WGS2.D"`})
-				cell += ":four-differ"
-			}
-			sl := [][2][]string{{nil, nil}, {{"a", "b"}, {"a", "b"}}, {{"a", "b"}, {"a", "c"}}, {{"a"}, {"a", "a"}}, {nil, {}}, {{}, {}}}[r.Intn(6)]
-			s.S1, s.S2 = sl[0], sl[1]
-			if !reflect.DeepEqual(sl[0], sl[1]) {
-				exps = append(exps, expE{"G", "", `botheq:"WGS2.S1", "WGS2.S2"`})
-				cell += ":slices-differ"
-			}
-			mp := [][2]map[string]int{{nil, nil}, {{"a": 1}, {"a": 1}}, {{"a": 1}, {"a": 2}}, {{"a": 1}, {"b": 1}}, {nil, {}}}[r.Intn(5)]
-			s.M1, s.M2 = mp[0], mp[1]
-			if !reflect.DeepEqual(mp[0], mp[1]) {
-				exps = append(exps, expE{"G", "", `botheq:"WGS2.M1", "WGS2.M2"`})
-				cell += ":maps-differ"
-			}
-			st := [][2]WG1{{{}, {}}, {{X: "a", A: 1}, {X: "a", A: 1}}, {{X: "a", A: 1}, {X: "a", A: 2}}}[r.Intn(3)]
-			s.E1, s.E2 = st[0], st[1]
-			if st[0] != st[1] {
-				exps = append(exps, expE{"G", "", `botheq:"WGS2.E1", "WGS2.E2"`})
-				cell += ":structs-differ"
-			}
-			emit(&walkCall{Entry: "struct", Src: &s}, exps, cell)
+			src, exps, cell := wgs2Case(r)
+			emit(&walkCall{Entry: "struct", Src: src}, exps, cell)
 			w.Count("entry.wgs2")
 		}
 		// ---- a top-level slice of objects: each element is its own object
@@ -223,6 +187,18 @@ func runC17(c *Ctx) error {
 			p := randWG(r)
 			rules := map[string]string{"x": "either=1", "y": "either=1", "a": "botheq=1", "b": "botheq=1"}
 			q := []string{"x=" + p.x, "y=" + p.y, fmt.Sprintf("a=%d", p.a), fmt.Sprintf("b=%d", p.b)}
+			blank := ""
+			switch r.Intn(6) {
+			case 0: // a value of blanks only is a supplied value: the either group is satisfied
+				if p.x == "" {
+					q[0], p.x, blank = "x=+", " ", ":blank-member"
+				}
+			case 1: // values that differ only by a trailing blank are different
+				if p.a == p.b {
+					q[2], q[3], blank = fmt.Sprintf("a=%d", p.a), fmt.Sprintf("b=%d%%20", p.b), ":trailing-blank"
+					p.b = p.a + 1000 // "differ": expectation below
+				}
+			}
 			// any order
 			for j := len(q) - 1; j > 0; j-- {
 				k := r.Intn(j + 1)
@@ -243,9 +219,59 @@ func runC17(c *Ctx) error {
 			if p.bothViolated() {
 				exps = append(exps, expE{"G", "", "botheq:" + order("a", "b")})
 			}
-			emit(&walkCall{Entry: "url", Rules: rules, Src: "http://h.example/p?" + strings.Join(q, "&")}, exps, fmt.Sprintf("url:%v:%v", p.eitherViolated(), p.bothViolated()))
+			emit(&walkCall{Entry: "url", Rules: rules, Src: "http://h.example/p?" + strings.Join(q, "&")}, exps, fmt.Sprintf("url:%v:%v%s", p.eitherViolated(), p.bothViolated(), blank))
 			w.Count("entry.url")
 		}
 	}
 	return w.Flush()
+}
+
+// wgs2Case: one WGS2 object (int-keyed map of objects, a four-member botheq group, botheq over slices / maps / structs)
+// with the group clauses it must produce
+func wgs2Case(r *gal.Rng) (interface{}, []expE, string) {
+			var s WGS2
+			var exps []expE
+			cell := "wgs2"
+			nk := r.Range(0, 2)
+			if nk > 0 {
+				s.MI = map[int]WG{}
+			}
+			for k := 0; k < nk; k++ {
+				p := randWG(r)
+				s.MI[k+3] = p.wg()
+				exps = append(exps, groupExps(p, fmt.Sprintf("WGS2.MI[%d]", k+3))...)
+			}
+			cell += fmt.Sprintf(":mi%d", nk)
+			four := [][4]int{{0, 0, 0, 0}, {2, 2, 2, 2}, {2, 9, 2, 2}, {2, 2, 9, 2}, {2, 2, 2, 9}, {2, 9, 2, 9}, {0, 2, 0, 0}, {9, 2, 2, 2}}[r.Intn(8)]
+			s.A, s.B, s.C, s.D = four[0], four[1], four[2], four[3]
+			if !(four[0] == four[1] && four[1] == four[2] && four[2] == four[3]) {
+				exps = append(exps, expE{"G", "", `botheq:"WGS2.A", "WGS2.B", "WGS2.C", "WGS2.D"`})
+				cell += ":four-differ"
+			}
+			sl := [][2][]string{{nil, nil}, {{"a", "b"}, {"a", "b"}}, {{"a", "b"}, {"a", "c"}}, {{"a"}, {"a", "a"}}, {nil, {}}, {{}, {}}}[r.Intn(6)]
+			s.S1, s.S2 = sl[0], sl[1]
+			if !reflect.DeepEqual(sl[0], sl[1]) {
+				exps = append(exps, expE{"G", "", `botheq:"WGS2.S1", "WGS2.S2"`})
+				cell += ":slices-differ"
+			}
+			mp := [][2]map[string]int{{nil, nil}, {{"a": 1}, {"a": 1}}, {{"a": 1}, {"a": 2}}, {{"a": 1}, {"b": 1}}, {nil, {}}}[r.Intn(5)]
+			s.M1, s.M2 = mp[0], mp[1]
+			if !reflect.DeepEqual(mp[0], mp[1]) {
+				exps = append(exps, expE{"G", "", `botheq:"WGS2.M1", "WGS2.M2"`})
+				cell += ":maps-differ"
+			}
+			st := [][2]WG1{{{}, {}}, {{X: "a", A: 1}, {X: "a", A: 1}}, {{X: "a", A: 1}, {X: "a", A: 2}}}[r.Intn(3)]
+			s.E1, s.E2 = st[0], st[1]
+			if st[0] != st[1] {
+				exps = append(exps, expE{"G", "", `botheq:"WGS2.E1", "WGS2.E2"`})
+				cell += ":structs-differ"
+			}
+			pa, pb2, pc := "same", "same", "other"
+			pt := [][2]*string{{nil, nil}, {&pa, &pb2}, {&pa, &pa}, {&pa, &pc}, {&pa, nil}}[r.Intn(5)]
+			s.P1, s.P2 = pt[0], pt[1]
+			if !reflect.DeepEqual(pt[0], pt[1]) {
+				exps = append(exps, expE{"G", "", `botheq:"WGS2.P1", "WGS2.P2"`})
+				cell += ":pointers-differ"
+			}
+			return &s, exps, cell
 }
